@@ -170,11 +170,14 @@ mpf_get_str (char *dbuf, mp_exp_t *exp, int base, size_t n_digits, mpf_srcptr u)
 
   /* Allocate temporary digit space.  We can't put digits directly in the user
      area, since we generate more digits than requested.  (We allocate
-     2 * GMP_LIMB_BITS extra bytes because of the digit block nature of the
+     3 * GMP_LIMB_BITS extra bytes because of the digit block nature of the
      conversion.)  */
-  tstr = (unsigned char *) TMP_ALLOC (n_digits + 2 * GMP_LIMB_BITS + 3);
+  tstr = (unsigned char *) TMP_ALLOC (n_digits + 3 * GMP_LIMB_BITS + 3);
 
-  n_limbs_needed = 2 + ((mp_size_t) (n_digits / mp_bases[base].chars_per_bit_exactly)) / GMP_NUMB_BITS;
+  /* Two guard limbs: the truncated squarings of mpn_pow_1_highpart lose up to
+     a limb of accuracy for large exponents, which with a single guard limb
+     reached the last requested digit.  */
+  n_limbs_needed = 3 + ((mp_size_t) (n_digits / mp_bases[base].chars_per_bit_exactly)) / GMP_NUMB_BITS;
 
   if (ue <= n_limbs_needed)
     {
